@@ -61,6 +61,7 @@ def run(ctx):
     rep.rule("C03.R3", "A1: in reserve, mark_all unreachable from has_conflict==true; every path to mark_all passes has_conflict")
     rep.rule("C03.R4", "A1/A2: blockers come from footprints_conflict(rewrite, prior in reserved); reserved.push only when accepted; "
                        "empty blockers on rejection returns Err")
+    rep.rule("C03.R6", "ordering (shared with C01.R1): queue key agreement, digit table, pass count, every pass executes, dedupe-index stability")
     rep.rule("C03.R5", "A10: footprints_conflict and has_conflict never read Footprint.factor_mask and never call independent")
 
     fp_adt = prog.adt(FP)
@@ -252,6 +253,10 @@ def run(ctx):
         rep.check(found, "C03.R4", "receipt:empty-blockers-is-error",
                   "blockers.is_empty() on rejection returns Err(InternalCorruption)",
                   "no `blockers.is_empty()` gate that forces Err(InternalCorruption) was found", site=rr.loc())
+
+    # ---- R6 candidate order
+    from .C01 import queue_order_rules
+    queue_order_rules(rep, prog, "C03.R6")
 
     # ---- R5 factor mask not consulted by scheduler/receipt predicates
     for fn in (prog.fn("warp_core::engine_impl::footprints_conflict"), hc):
